@@ -1,11 +1,10 @@
 #!/bin/bash
-# MANIFEST.setup_cmd: build every Coq family from the files on disk (offline, full .vo builds).
+# MANIFEST.setup_cmd: build the Coq families the registered checks use (offline, full .vo builds).
+# coq/FAMILIES lists them; other directories under coq/ are work in progress and are not built here.
 here="$(cd "$(dirname "$0")" && pwd)"
 cd "$here"
 rc=0
-for d in coq/*/; do
-  fam="$(basename "$d")"
-  ls "$d"*.v >/dev/null 2>&1 || continue
+for fam in $(grep -v '^#' coq/FAMILIES); do
   echo "== building Coq family $fam"
   COQ_JOBS=16 coq/build.sh "$fam" > "coq/$fam/.setup.log" 2>&1 || { echo "family $fam FAILED (log: coq/$fam/.setup.log)"; tail -20 "coq/$fam/.setup.log"; rc=1; }
 done
